@@ -579,7 +579,32 @@ func c04DiffList(got, exp []c04KV) string {
 
 func (r *c04Run) checkCacheIter(prefix []byte) {
 	raw := string(c04Raw(prefix))
-	got, err := r.drain(r.cache.NewIterator(prefix))
+	it := r.cache.NewIterator(prefix)
+	// other reads may happen between creating an iterator and positioning it
+	// (and two iterators may be open at once): they must not disturb it
+	for n := r.t.Choose(3); n > 0; n-- {
+		if r.t.Bool() {
+			r.c.Probe("read_between_newiterator_and_first")
+			r.checkGet(r.pickKeyOrNear())
+		} else {
+			r.c.Probe("second_iterator_while_first_open")
+			p2 := r.pickPrefix()
+			raw2 := string(c04Raw(p2))
+			got2, err2 := r.drain(r.cache.NewIterator(p2))
+			if err2 != nil {
+				r.c.Fail("iterator-error", "cache", "CacheDB.NewIterator(%x): %v", p2, err2)
+			}
+			exp2 := r.m.list(raw2, c04LvCache)
+			e2 := make([]c04KV, len(exp2))
+			for i, kv := range exp2 {
+				e2[i] = c04KV{kv.k[1:], kv.v}
+			}
+			if d := c04DiffList(got2, e2); d != "" {
+				r.c.Fail("iterator-differs", "cache", "CacheDB.NewIterator(%x) (opened while another iterator was open): %s", p2, d)
+			}
+		}
+	}
+	got, err := r.drain(it)
 	if err != nil {
 		r.c.Fail("iterator-error", "cache", "CacheDB.NewIterator(%x): %v", prefix, err)
 	}
